@@ -23,7 +23,7 @@ Step(p) == IF p = CallerP THEN caller(p) \/ wait(p) ELSE IF p = HandlerP THEN rh
 NoOb == <<"none", 0>>
 \* the condition variable signalled by the step process p is about to take (NoOb: that step contains no signal)
 SigObj(p) == CASE pc[p] = "d2" -> <<"thr", thr[p]>>
-               [] pc[p] = "d5" -> IF Ordered THEN <<"rq", 1>> ELSE NoOb
+               [] pc[p] = "d5" -> IF OrdOf(1) THEN <<"rq", 1>> ELSE NoOb
                [] pc[p] = "f2" -> <<"rq", 1>>
                [] pc[p] = "p6" -> <<"thr", thr[p]>>
                [] pc[p] = "w7" -> <<"rq", myrq[p]>>
